@@ -338,6 +338,36 @@ type Cluster struct {
 	PVCListerHook func(name string) error
 	// ListPerm permutes pod cache listings (0 = sorted by name).
 	ListPerm uint64
+
+	// ghosts: pods that were created and removed in the API without the pod cache ever holding
+	// them. A watch delivers both events; RefreshPod(notify) does so from this record.
+	ghosts map[string]*corev1.Pod
+}
+
+// removePod removes a pod from the API state, remembering it when the cache never saw it.
+func (c *Cluster) removePod(ns, name string) error {
+	old := c.Pod(ns, name)
+	err := c.tracker.Delete(GVRPods, ns, name)
+	if err == nil && old != nil {
+		if _, had, _ := c.podIdx().GetByKey(ns + "/" + name); !had {
+			if c.ghosts == nil {
+				c.ghosts = map[string]*corev1.Pod{}
+			}
+			c.ghosts[ns+"/"+name] = old
+		}
+	}
+	return err
+}
+
+// GhostPods lists the names (in ns) of pods that came and went unseen by the cache.
+func (c *Cluster) GhostPods(ns string) (out []string) {
+	for k, p := range c.ghosts {
+		if p.Namespace == ns {
+			out = append(out, k[len(ns)+1:])
+		}
+	}
+	sort.Strings(out)
+	return
 }
 
 // New returns an empty cluster with a (pooled) controller whose caches are empty.
@@ -378,6 +408,7 @@ func (c *Cluster) Restart() {
 	nr := newRig()
 	nr.cur = c
 	c.r = nr
+	c.ghosts = nil
 	putRig(old)
 }
 
@@ -746,7 +777,7 @@ func (c *Cluster) deletePod(pod *corev1.Pod) error {
 	// kube-apiserver: a pod that is not scheduled or already terminated (Failed/Succeeded) is deleted
 	// with grace period 0, i.e. removed at once - also when it was already terminating
 	if pod.Status.Phase == corev1.PodFailed || pod.Status.Phase == corev1.PodSucceeded || pod.Spec.NodeName == "" {
-		return c.tracker.Delete(GVRPods, pod.Namespace, pod.Name)
+		return c.removePod(pod.Namespace, pod.Name)
 	}
 	if pod.DeletionTimestamp != nil {
 		return nil // already terminating: accepted, nothing changes
